@@ -84,10 +84,10 @@ MUTANTS += [
              "    def _insert_into_buffer(self, buffer, buffer_start, data_offset, length):\n        try:\n            part = self._get_compressed_bytes(data_offset, length)\n"
              "        except IOError:\n            part = self._get_compressed_bytes(data_offset + length, length)")]),
     ('c17_footer_int_unchecked', 'C17', 'single-value footer read bypasses the checked primitive', [
-        (RD, "                    buf = self.file.read_range(self.file, v + 4*index, 4)  # A 32-bit int is 4 bytes\n                    header[k] = np.frombuffer(buf, dtype=np.int32)[0]",
-             "                    if self.local:\n                        self.file.seek(v + 4*index)\n                        buf = self.file.read(4).ljust(4, b'\\0')\n"
-             "                    else:\n                        buf = self.file.read_range(self.file, v + 4*index, 4)\n"
-             "                    header[k] = np.frombuffer(buf, dtype=np.int32)[0]")]),
+        (RD, "                        buf = self.file.read_range(self.file, v + 4*index, 4)  # A 32-bit int is 4 bytes\n                        values[v] = np.frombuffer(buf, dtype=np.int32)[0]",
+             "                        if self.local:\n                            self.file.seek(v + 4*index)\n                            buf = self.file.read(4).ljust(4, b'\\0')\n"
+             "                        else:\n                            buf = self.file.read_range(self.file, v + 4*index, 4)\n"
+             "                        values[v] = np.frombuffer(buf, dtype=np.int32)[0]")]),
     # ---------------------------------------------------------------- C18
     ('c18_no_length_check_file', 'C18', 'local range reads return whatever came back', [
         (UT, "    return check_range_length(file.read(length), offset, length)", "    return file.read(length)")]),
@@ -225,7 +225,12 @@ def main(argv):
     for m in MUTANTS:
         if sel and m[0] not in sel and m[1] not in sel:
             continue
-        code, lines, dt, tail = run_one(m)
+        try:
+            code, lines, dt, tail = run_one(m)
+        except SystemExit as ex:
+            print(f'STALE      {m[0]:40s}        {ex}')
+            res.append((m[0], 'STALE'))
+            continue
         verdict = 'CAUGHT' if code == 1 else ('MISSED' if code == 0 else f'ERROR({code})')
         print(f'{verdict:10s} {m[0]:40s} {dt:5.0f}s  {m[2]}')
         for l in lines[:4]:
